@@ -483,4 +483,24 @@ PairBad(r) ==
           THEN {} ELSE {"SelfSigned vs construction"})
 PairOK(r) == PairBad(r) = {}
 
+(* SelfSigned, the "issuer equals subject" dimension.  Equality is equality of the DER bytes:
+   names that merely look alike are different names.  A case presents a certificate whose issuer
+   relates to its subject as `rel` and whose signature does / does not verify under its own key. *)
+NameRels == {"identical",       \* byte-identical
+             "string-type",     \* same printed form, one attribute PrintableString on one side, UTF8String on the other
+             "rdn-order",       \* same attributes, RDNs in another order
+             "set-order",       \* same attributes, the values of a multi-valued RDN in another order
+             "case",            \* differs in letter case only
+             "trailing-space",  \* one value with a trailing space
+             "one-attribute"}   \* one attribute value differs
+RawNamesEqual(rel) == rel = "identical"
+ExpSelfSigned(c) == RawNamesEqual(c.rel) /\ c.own
+(* observation [c: [rel, own], o: meta observation of the certificate] *)
+RelBad(r) ==
+  MetaBad(r.o)
+    \cup (IF r.o.selfSigned = ExpSelfSigned(r.c) THEN {} ELSE {"SelfSigned vs name relation"})
+    \* the case was built as described (re-derived from the real certificate)
+    \cup (IF r.o.issuerEqSubject = RawNamesEqual(r.c.rel) /\ (r.o.ownSigVerifies = "yes") = r.c.own THEN {} ELSE {"case"})
+RelOK(r) == RelBad(r) = {}
+
 =============================================================================
